@@ -73,6 +73,11 @@ def do_replay(args, pm):
     from pyvc.world import World
     with open(args.replay) as f:
         rp = json.load(f)
+    if rp.get('kind'):
+        from props import tables
+        t = tables.replay(rp, rp.get('property') or args.prop, {'repo': runner.REPO, 'tier': 'quick', 'seed': 0, 'jobs': 1})
+        if t is not None:
+            return t
     custom = getattr(pm, 'replay', None)
     if rp.get('kind') and custom is not None:
         return custom(rp)
